@@ -65,4 +65,14 @@ CASES = [
     ("C12", "src/eolib/packet/sequence_start.py", "seq1_min = max(0, int((value - (CHAR_MAX - 1) + 13 + 6) / 7))", "seq1_min = max(0, int((value - (CHAR_MAX - 1) + 13) / 7))", "detect", "+6 dropped"),
     ("C12", "src/eolib/packet/sequence_start.py", "seq1 = value + random.randrange(0, CHAR_MAX - 1)", "seq1 = value + random.randrange(0, CHAR_MAX)", "quiet", "seq2 = 252 still fits (negative control)"),
     ("C13", "src/eolib/packet/packet_sequencer.py", "            start (SequenceStart): The new sequence start.\n        \"\"\"\n        self._start = start", "            start (SequenceStart): The new sequence start.\n        \"\"\"\n        self._start = start\n        self._counter = 0", "detect", "counter reset on update"),
+    # ---- families added in rounds 6-8
+    ("C18", CG, "        finally:\n            self._protocol_files.clear()", "        except KeyboardInterrupt:\n            raise\n        else:\n            self._protocol_files.clear()", "detect", "per-run state only cleared after a successful run"),
+    ("C18", "protocol_code_generator/generate/python_file.py", 'with open(output_path, "w", encoding="utf-8") as file:', 'with open(output_path, "w") as file:', "detect", "output written in the platform's default encoding"),
+    ("C18", CG, "            tree = ElementTree.parse(path)\n            protocol = tree.getroot()", "            with open(path, encoding=\"utf-8-sig\") as fh_:\n                protocol = ElementTree.fromstring(fh_.read())", "detect", "XML always read as UTF-8 text"),
+    ("C19", R, "        return self._read_bytes(length)\n\n    def get_char", "        return self._data[self._position:self._position + 0] if length == 0 else memoryview(self._read_bytes(length))\n\n    def get_char", "quiet", "get_bytes returns a view of a private copy (negative control for C19: still a snapshot)"),
+    ("C09", W, "        if len(string) != length:\n            raise ValueError", "        if len(string) != length and length >= 0:\n            raise ValueError", "detect", "a negative length is read as 'no length requested'"),
+    ("C09", W, "            if length >= len(string):\n                return", "            if length >= len(string) or not string:\n                return", "quiet", "equivalent change (the padding helper still refuses negative lengths): negative control"),
+    ("C13", "src/eolib/packet/packet_sequencer.py", "        self._start = start\n        self._counter = 0", "        self._start = start\n        import threading as _t\n        self._tl = _t.local()\n        self._counter = 0", "quiet", "unused thread-local (negative control)"),
+    ("C14", META, "        try:\n            if not cls._member_map_:", "        if isinstance(type(value), ProtocolEnumMeta) and type(value) is not cls:\n            return value\n        try:\n            if not cls._member_map_:", "detect", "values of other protocol enums returned as they are"),
+    ("C08", "src/eolib/data/string_encoding_utils.py", "def decode_string(bytes: bytearray) -> None:", "def decode_string(bytes: bytearray) -> None:\n    if type(bytes) is not bytearray:\n        return", "detect", "bytearray subclasses ignored by decode_string"),
 ]
